@@ -19,6 +19,15 @@ checks = {
  "C05": (MC, "histbfs", "same state space as C04 with a wrong-passphrase family and a raw secret scan as oracle",
    "In every state of the C04 space, before and after an unlock, every secret-requiring operation is tried with ~60 wrong passphrases (must be refused, change nothing, not lock out the right one) and the raw databases, exported keystores and error strings are scanned for every secret the harness derives from the mnemonic.",
    "§5 C05"),
+ "C06": (FE, "faultenum", "exhaustive crash-point enumeration (every wallet-database commit of every base history) through a db seam, with real restart and catch-up",
+   "For the shortest history of every state of the C01 space up to the base depth, the process is stopped before each of its wallet-database commits in turn; the wallet is restarted on the same database through the real start-up path and must report the reference ledger of the node's final chain.",
+   "§5 C06"),
+ "C07": (MC, "histbfs", "explicit-state BFS over import-call / single-rescan-batch / node-event / delivery / restart histories on the real implementation",
+   "Every history of importing a wallet whose history is already on chain, single rescan batches of the real asyncImport, blocks paying/spending it, reorganisations, deliveries and a restart up to the stated depth (plus a pass over 1003-block chains so that the rescan spans batches); refusal to select/remove while importing, and after completion the ledger equals the reference ledger.",
+   "§5 C07"),
+ "C08": (MC, "histbfs", "explicit-state BFS over two-wallet histories with removal call / removal run / restart / re-import, raw residue scan and survivor ledger oracle",
+   "Every history of two wallets sharing transactions, the removal API call, the background removal run, restarts between them, reorganisations and re-import up to the stated depth; wrong passphrases are refused, after completion no raw database record mentions the removed wallet's id, script hashes or addresses, and the surviving wallet's ledger equals the reference.",
+   "§5 C08"),
  "C09": (MC, "histbfs", "explicit-state BFS over relay/confirm/conflict/reorg histories on the real implementation with a reference pending-set model",
    "Every history of relayed transactions (wallet spend, incoming payment, child, conflict, duplicate), blocks that confirm them or their conflicts, reorganisations and deliveries up to the stated depth runs on the real follower; in every state the wallet's pending buckets, the read-back of each pending entry, the spent_by_unmined flag of every coin and two automatic-selection probes are compared with a reference pending model, together with the C01 ledger oracle.",
    "§5 C09"),
@@ -31,6 +40,9 @@ checks = {
  "C12": (MC, "histbfs", "explicit-state BFS over new-address/payment/reorg/restart histories with restore probes, per gap limit",
    "For gap limits 2,3(,4): every history of address requests of both classes, payments to issued addresses, reorganisations removing payments and restarts up to the stated depth; each NewAddress outcome is compared with the issuing rule and with an independent derivation of the next address; in every state the listings, used flags and the ledger are compared with the reference and three mnemonic restores into a fresh second instance must rediscover every address with best-chain history.",
    "§5 C12"),
+ "C18": (FE, "faultenum", "exhaustive storage-fault enumeration (every fallible database call index x repeat count of every base history) through a db seam",
+   "For the shortest history of every state of the C01 space up to the base depth, each fallible wallet-database call in turn (and runs of 2/3 consecutive calls) returns an error; once storage works again and the next tip arrives, all ledger queries must equal the reference ledger.",
+   "§5 C18"),
  "C13": (MC, "enum", "bounded-exhaustive input enumeration against an independent BIP-39 reference",
    "Input-bounded model checking: every member of the described entropy / word-sequence families is run through the real mnemonic code and compared with an independent reference validated against BIP-39 vectors.", "§5 C13"),
  "C14": (MC, "enum", "bounded-exhaustive (seed x path) and corruption enumeration against an independent BIP-32 reference",
@@ -56,6 +68,8 @@ m = {
    "kind_free_text": "level-synchronous explicit-state BFS; the parent owns seen-set and frontier, worker processes replay each history on a fresh real wallet + real chain DB"},
   {"name": "simnode+world", "path": "harness/simnode harness/world", "serves_properties": [k for k, v in checks.items() if v[1] == "histbfs"],
    "kind_free_text": "closed environment: real mass-core chain DB driven with synthetic blocks, reference ledger, consensus oracle"},
+  {"name": "faultenum", "path": "harness/dbseam harness/models/c06 harness/cmd/vcheck/check_c06.go", "serves_properties": ["C06", "C18"],
+   "kind_free_text": "db seam around mwdb.DB (call counting, error injection, stop-the-world before commit k) + enumeration of every crash/fault point of every base history"},
   {"name": "dbmodel", "path": "harness/models/c11", "serves_properties": ["C11"],
    "kind_free_text": "reference nested-map model of the wallet database + full read-back oracle, explored by the histbfs parent"},
   {"name": "enum", "path": "harness/enum", "serves_properties": [k for k, v in checks.items() if v[1] == "enum"],
